@@ -100,11 +100,13 @@ for K in (Unsigned, Signed):
     std_cases(contract(mod + "_cohdl_truncdiv_", PROPS), K, lambda sx, a, b: sem.divop(sx, a, b, "truncdiv"))
     std_cases(contract(mod + "__mod__", PROPS), K, lambda sx, a, b: sem.divop(sx, a, b, "mod"))
     std_cases(contract(mod + "_cohdl_rem_", PROPS), K, lambda sx, a, b: sem.divop(sx, a, b, "rem"))
-    # reflected division family: a same-kind VECTOR left operand is handled too (op.truncdiv(const_vector, x) ...);
-    # Unsigned._cohdl_rrem_ is the exception: it only takes literals
+    # reflected division family: a same-kind VECTOR left operand is handled too (op.truncdiv(const_vector, x) ...).
+    # (Until session 6 this said "Unsigned._cohdl_rrem_ is the exception: it only takes literals" -- the code's behaviour, not the
+    # statement's: op.rem(constant Unsigned, run-time Unsigned) reaches this method through TypeQualifier._cohdl_rrem_ and was
+    # rejected, while the same call with two run-time operands, with two constants, with Signed operands and op.truncdiv are accepted.)
     std_cases(contract(mod + "_cohdl_rtruncdiv_", PROPS), K, lit_or_ni(lambda sx, a, k: sem.rdivop(sx, a, k, "truncdiv"), "truncdiv"), vector_rhs=True, foreign=False)
     std_cases(contract(mod + "__rmod__", PROPS), K, lit_or_ni(lambda sx, a, k: sem.rdivop(sx, a, k, "mod"), "mod"), vector_rhs=True, foreign=False)
-    std_cases(contract(mod + "_cohdl_rrem_", PROPS), K, lit_or_ni(lambda sx, a, k: sem.rdivop(sx, a, k, "rem"), "rem" if K is Signed else None), vector_rhs=True, foreign=False)
+    std_cases(contract(mod + "_cohdl_rrem_", PROPS), K, lit_or_ni(lambda sx, a, k: sem.rdivop(sx, a, k, "rem"), "rem"), vector_rhs=True, foreign=False)
 
     # ---- shifts --------------------------------------------------------------------
     for nm, left in (("__lshift__", True), ("__rshift__", False)):
